@@ -63,6 +63,10 @@ func init() {
 			fl := map[string]int64{"vectors_checked": 10000}
 			for _, r := range []string{"editable", "role-presentation", "role-on-table", "role-on-descendant", "datatable0", "nested", "one-row", "one-column", "header-structure", "cell-attribute", "summary", "five-columns", "twenty-rows", "ten-cells", "embedded-object", "default"} {
 				fl["rule_"+r] = 20
+				if tier == "thorough" {
+					// the full grid has what it has: 8 vectors are decided by the default rule, 20 by the row count
+					fl["rule_"+r] = 5
+				}
 			}
 			return fl
 		},
